@@ -244,7 +244,7 @@ def run(ctx):
             if ma and mm:
                 va = [int(x) for x in ma.groups()]; vm = [int(x) for x in mm.groups()]
                 rest_a = re.sub(r' v=\d+,\d+,\d+', '', str(fd[1])); rest_m = re.sub(r' v=\d+,\d+,\d+', '', str(fd[2]))
-                if rest_a == rest_m and all(x <= y for x, y in zip(va, vm)) and va != vm:
+                if rest_a == rest_m and any(x < y for x, y in zip(va, vm)):
                     ctx.report('impl:value-version-not-bumped', 'a q/u/z value version is left unchanged by an operation after which the values may have changed '
                                '(they are rewritten or discarded): implementation versions %s, documented model %s after the last operation of the history' % (va, vm),
                                {'failing_input': small, 'first_difference': {'line': fd[0], 'implementation': fd[1], 'model': fd[2]},
